@@ -50,7 +50,8 @@ ViewOpts ==
 Inputs ==
     {"empty", "1byte", "5bytes", "shape_only", "magic_only", "magic_v1_nolen", "text_no_values", "text_shape_empty",
      "text_shape_zero", "text_shape_overflow", "text_shape_negative", "text_huge_value", "text_nan_values", "npy_shape_overflow",
-     "npy_shape_zero", "npy_header_len_huge", "text_shape_zero_overflow", "npy_shape_zero_overflow", "npy_shape_scalar", "npy_shape_scalar_novalue", "text_shape_scalar_like", "npy_v9", "npy_dict_garbage", "npy_shape_nonint", "binary_garbage", "utf8_bom_text"}
+     "npy_shape_zero", "npy_header_len_huge", "text_shape_zero_overflow", "npy_shape_zero_overflow", "npy_shape_scalar", "npy_shape_scalar_novalue", "text_shape_scalar_like", "text_shape_arabic_digit", "text_shape_superscript", "text_shape_fullwidth",
+     "text_shape_half_after", "text_value_fullwidth", "npy_v9", "npy_dict_garbage", "npy_shape_nonint", "binary_garbage", "utf8_bom_text"}
 
 SampleLists ==
     {"dup_same_label", "dup_diff_label", "dup_unnamed_named", "unknown", "empty_arg", "empty_file", "only_equals", "trailing_comma",
